@@ -1,5 +1,5 @@
 (* C06 — comments: same text, emitted once by the comment converter; the parser-free core. *)
-From TV Require Import Conv Format Render RenderProofs SeqProofs ConvProofs ParenProofs CommentProofs MarkupProofs MathProofs.
+From TV Require Import Conv Format Render RenderProofs SeqProofs ConvProofs ParenProofs CommentProofs MarkupProofs MathProofs FlowProofs ListProofs.
 
 Section Full.
   Variable parse : str -> tree.
@@ -54,3 +54,26 @@ Example C06_example :
   block_comment (fun s => N.of_nat (length s)) [47;42;32;97;10;32;32;32;98;32;42;47] =
   Ok (DAlign (DAppend (DAppend (DText [47;42;32;97]) DHardline) (DText [98;32;42;47]))).
 Proof. vm_compute. reflexivity. Qed.
+
+(* a comment met by the flow stylist is pushed as the comment's own document, at its place among the children:
+   `op_for` gives, for a comment child, `FComment d _` with `comment swidth (bt child) = Ok d`, and the stylist's
+   document holds the atoms of all pushed documents in child order with only blanks and line breaks between them *)
+Theorem C06_flow_keeps_comments_in_place :
+  forall swidth S (c : ctx) children (s0 : S) producer n d n' x,
+    flow_like_iter swidth c children s0 producer n = Ok (d, n') -> seqs d x ->
+    exists ops xs, Forall2 (op_for swidth producer) children ops /\ Forall2 seqs (map fop_doc ops) xs /\
+                   solid x = solid (concat xs).
+Proof. exact flow_like_iter_conserves. Qed.
+Print Assumptions C06_flow_keeps_comments_in_place.
+
+(* the same for the list stylist: a comment among the nodes of a list is pushed as `LComment d _` with
+   `comment swidth (bt node) = Ok d` (trivia_op) and reaches the printed list at its place among the items *)
+Theorem C06_list_keeps_comments_in_place :
+  forall swidth cfg (l0 : lst) (c : ctx) nodes checker n l' n' sty x,
+    l_items l0 = [] -> l_free l0 = [] ->
+    lst_process swidth l0 c nodes checker n = Ok (l', n') ->
+    seqs (lst_doc swidth cfg l' sty) x ->
+    exists ops xs, Forall2 (lop_for swidth checker) nodes ops /\
+                   Forall2 seqs (pushed_by swidth l0 ops) xs /\ kept sty x = kept sty (concat xs).
+Proof. exact lst_process_conserves. Qed.
+Print Assumptions C06_list_keeps_comments_in_place.
